@@ -273,8 +273,15 @@ def prove_registration(src_root, ex: Explorer):
                       'a second identical request got the future of the first one: cancelling one caller cancels the other')
             lst.remove(prior)
         cbs = f.ghost['future'].callbacks
-        ok = lst.count(f) == 1 and len(cbs) == 1 and isinstance(cbs[0], Bound) and cbs[0].self_val is net and \
-            cbs[0].func.node.name == '_remove_response_future' and it.aio.yields == []
+        ok = lst.count(f) == 1 and len(cbs) == 1 and it.aio.yields == []
+        if ok:
+            # the callback, whatever its form (bound method, closure, partial), takes THIS future out of the list when it is done
+            witness = new(it, NET, 'ExpectedResponse')
+            lst.append(witness)
+            it.call(cbs[0], [f], {})
+            ok = lst.count(f) == 0 and lst.count(witness) == 1
+            lst.remove(witness)
+            lst.append(f)
         ctx.prove(f'C12.registration.{site}', ok, 'registered once, removal callback attached in the same atomic section')
         if site != 'register_response_future':
             want_conn = 'ServerConnection' if 'server' in site else 'PeerConnection'
